@@ -37,3 +37,27 @@ pub use crate::passwords::OpaqueString;
 pub use crate::usernames::UsernameCaseMapped;
 pub use crate::usernames::UsernameCasePreserved;
 pub use precis_core;
+
+/// Verification hooks (only compiled with `--cfg precis_verif`): access to
+/// private per-code-point helpers so that an external harness can compare
+/// them exhaustively with a formal model.
+#[cfg(precis_verif)]
+#[doc(hidden)]
+#[allow(missing_docs)]
+pub mod verif_hooks {
+    pub use crate::bidi::verif_bidi_class_name as bidi_class_name;
+    pub use crate::nicknames::verif_find_disallowed_space as find_disallowed_space;
+    pub use crate::usernames::verif_get_decomposition_mapping as get_decomposition_mapping;
+    pub fn has_rtl(label: &str) -> bool {
+        crate::bidi::has_rtl(label)
+    }
+    pub fn satisfy_bidi_rule(label: &str) -> bool {
+        crate::bidi::satisfy_bidi_rule(label)
+    }
+    pub fn is_space_separator(c: char) -> bool {
+        crate::common::is_space_separator(c)
+    }
+    pub fn is_non_ascii_space(c: char) -> bool {
+        crate::common::is_non_ascii_space(c)
+    }
+}
